@@ -133,12 +133,12 @@ def cell_card(c, deck):
     parts = [str(c['n'])]
     if c.get('like'):
         parts.append('like %d but' % c['like'])
-        parts += list(c.get('but', []))
+        parts += [_eq(w, c.get('eqstyle')) for w in c.get('but', [])]
         return wrap_card(' '.join(parts))
     if c['mat'] == 0:
         parts.append('0')
     else:
-        parts.append('%d %s' % (c['mat'], c['rhotxt'] or '-1.0'))
+        parts.append(('0%d %s' if c.get('matlead') else '%d %s') % (c['mat'], c['rhotxt'] or '-1.0'))     # '01' is material 1
     par = c.get('parens')
     parts.append(render_geom(c['geom'], None, random.Random(par) if isinstance(par, int) else par))
     nfixed = len(parts)
@@ -181,7 +181,17 @@ def cell_card(c, deck):
         kws = parts[nfixed:]
         random.Random(c['kwshuffle']).shuffle(kws)
         parts = parts[:nfixed] + kws
+    parts = parts[:nfixed] + [_eq(w, c.get('eqstyle')) for w in parts[nfixed:]]
     return wrap_card(' '.join(parts))
+
+
+def _eq(word, style):
+    """The equals sign of a cell keyword is optional: `u=3`, `u 3` and `u = 3` are one keyword."""
+    if style == 'blank':
+        return word.replace('=', ' ')
+    if style == 'spaced':
+        return word.replace('=', ' = ')
+    return word
 
 
 def _array_tokens(univs, short):
